@@ -257,6 +257,13 @@ pub fn run(ctx: &mut Ctx) {
             }
             let config = format!("{} triggering configuration, listeners panicking={:?}", m.name(), panics);
             let site = format!("{}::listeners", m.name());
+            // "whatever they do": a listener may look into the layer that calls it (through a
+            // clone, a shared store); delivered from inside the layer's blocking lock, such a
+            // listener would deadlock and the call that raised the event would never resolve
+            if let Some(ev) = ls.inside_lock.lock().unwrap().first() {
+                ctx.viol("listener_called_inside_critical_section", &site, config.clone(), json!({"event": ev}), format!("event '{ev}' was delivered while the delivering thread held the layer's lock (a listener that uses the same {} would deadlock)", m.name()));
+            }
+            ctx.rep.witness("listeners_checked_for_lock_context", 1);
             match &baseline {
                 None => baseline = Some((outcomes, logs)),
                 Some((bo, bl)) => {
